@@ -8,6 +8,7 @@ import (
 	"os"
 	"path/filepath"
 	"strings"
+	"sync"
 	"time"
 )
 
@@ -164,7 +165,10 @@ func e2eExec(c *e2eCase, work string, tr *vTrace, logLines bool) (*e2eResult, ma
 		reset["stop"] = c.Plan.Stop.Role
 		reset["stopdel"] = c.Plan.Stop.Delete
 	}
-	var stopAt time.Time
+	var stopAt, resumedAt time.Time
+	var pauseMu sync.Mutex
+	pauseStarted, pausedNow := false, false
+	pData, pKeep, dataAfter := 0, 0, 0
 	hooks := &e2eHooks{}
 	if c.WatchdogMs > 0 {
 		hooks.watchdog = time.Duration(c.WatchdogMs) * time.Millisecond
@@ -213,14 +217,50 @@ func e2eExec(c *e2eCase, work string, tr *vTrace, logLines bool) (*e2eResult, ma
 					}
 				})
 			}
-			if pa != nil && m.G == pa.G && phase == pa.Phase {
+			if pa != nil && m.G == pa.G && phase == pa.Phase && !pauseStarted {
 				if t := client(); t != nil {
+					pauseStarted = true
+					pauseMu.Lock()
+					pausedNow = true
+					pauseMu.Unlock()
+					stopAt = time.Now()
 					tr.Emit(map[string]any{"e": "pause", "run": c.ID, "g": m.G}, func() { t.pauseTransferringFiles() })
 					go func() {
-						time.Sleep(time.Duration(pa.ResumeMs) * time.Millisecond)
-						tr.Emit(map[string]any{"e": "resume", "run": c.ID}, func() { t.resumeTransferringFiles() })
+						cycles := pa.Cycles
+						if cycles < 1 {
+							cycles = 1
+						}
+						for i := 0; i < cycles; i++ {
+							time.Sleep(time.Duration(pa.ResumeMs) * time.Millisecond)
+							pauseMu.Lock()
+							pausedNow = false
+							resumedAt = time.Now()
+							pauseMu.Unlock()
+							tr.Emit(map[string]any{"e": "resume", "run": c.ID}, func() { t.resumeTransferringFiles() })
+							if i+1 < cycles {
+								time.Sleep(30 * time.Millisecond)
+								pauseMu.Lock()
+								pausedNow = true
+								pauseMu.Unlock()
+								tr.Emit(map[string]any{"e": "pause", "run": c.ID, "g": -1}, func() { t.pauseTransferringFiles() })
+							}
+						}
 					}()
 				}
+			}
+			// what the paused client writes: file data vs keep-alive lines
+			if pa != nil && phase == "before" && m.Dir == "c2s" && m.Typ == "DATA" {
+				pauseMu.Lock()
+				if pausedNow {
+					if m.Keep {
+						pKeep++
+					} else {
+						pData++
+					}
+				} else if !resumedAt.IsZero() && !m.Keep && len(m.Raw) > 0 {
+					dataAfter++
+				}
+				pauseMu.Unlock()
 			}
 		}
 	}
@@ -360,7 +400,8 @@ func e2eExec(c *e2eCase, work string, tr *vTrace, logLines bool) (*e2eResult, ma
 		"ms": res.ServerMs, "since": since(res.ServerEnd), "told": res.FailLines["server"] != "", "msg": res.ServerErr}, nil)
 	fs := map[string]any{"e": "fs", "run": c.ID, "n": len(entries), "nsame": nsame, "allsame": allSame && len(entries) > 0,
 		"extra": len(extra), "touched": len(touched), "shown": res.ShownOK, "nshown": len(names), "ntops": len(tops),
-		"npresent": npresent, "keptok": keptok, "verified": verified}
+		"npresent": npresent, "keptok": keptok, "verified": verified,
+		"pdata": pData, "pkeep": pKeep, "dataafter": dataAfter, "pausems": e2ePauseMs(&c.Plan)}
 	tr.Emit(fs, nil)
 	if c.Plan.CheckLeft {
 		tr.Emit(map[string]any{"e": "left", "run": c.ID, "n": left}, nil)
@@ -556,4 +597,11 @@ func e2eLayouts(d *vCtx, bases []*e2eCase) ([][]e2eLayoutMsg, error) {
 	}
 	b, _ := json.Marshal(res)
 	return res, os.WriteFile(d.path("layout.json"), b, 0644)
+}
+
+func e2ePauseMs(p *e2ePlan) int {
+	if p.Pause == nil {
+		return 0
+	}
+	return p.Pause.ResumeMs
 }
